@@ -152,7 +152,7 @@ func (ic *Credential) CreateDisclosureProofBuilder(
 	d.undisclosedAttributes = getUndisclosedAttributes(disclosedAttributes, len(ic.Attributes))
 	d.attributes = ic.Attributes
 	for _, v := range d.undisclosedAttributes {
-		d.attrRandomizers[v], err = common.RandomBigInt(ic.Pk.Params.LmCommit)
+		d.attrRandomizers[v], err = randomizerAboveRevocationBound(ic.Pk.Params.LmCommit)
 		if err != nil {
 			return nil, err
 		}
@@ -192,6 +192,30 @@ func (ic *Credential) CreateDisclosureProofBuilder(
 	d.attrRandomizers[revIdx] = d.nonrevBuilder.randomizer
 
 	return d, nil
+}
+
+// randomizerAboveRevocationBound returns a random integer of at most numBits bits, for use as the
+// randomizer of a hidden attribute or of the secret key in a disclosure proof.
+//
+// ProofD.revocationAttrIndex() recognizes the response that belongs to the nonrevocation attribute
+// by its being smaller than 2^(AttributeSize+ChallengeLength+ZkStat+1). A response is at least as
+// large as its randomizer, so if the randomizer of another hidden attribute happens to be below
+// that bound (probability 2^-12 for 592-bit randomizers), the verifier may take that response for
+// the nonrevocation one and reject an honest proof. We therefore discard such candidates; the
+// remaining interval still has (almost) the full length, so the response hides the attribute
+// statistically as well as before.
+func randomizerAboveRevocationBound(numBits uint) (*big.Int, error) {
+	params := revocation.Parameters
+	boundBits := params.AttributeSize + params.ChallengeLength + params.ZkStat + 1
+	for {
+		r, err := common.RandomBigInt(numBits)
+		if err != nil {
+			return nil, err
+		}
+		if numBits <= boundBits || uint(r.BitLen()) > boundBits {
+			return r, nil
+		}
+	}
 }
 
 func (ic *Credential) nonrevConsumeBuilder() (*NonRevocationProofBuilder, error) {
